@@ -13,7 +13,7 @@ for p in props:
         out = subprocess.run(["./tools_try_seed.sh", d, p], capture_output=True, text=True, cwd="/verif").stdout
         un = re.search(r"DEMO-UNCHANGED-EXIT=(\d+)", out)
         ch = re.search(r"DEMO-CHANGED-EXIT=(\d+)", out)
-        suite_fail = [l for l in out.split("\n") if l.startswith("--- FAIL") and "TestBunch" not in l and "TestCancelMany" not in l and "ZZDemo" not in l]
+        suite_fail = [l for l in out.split("\n") if l.startswith("--- FAIL") and "TestBunch" not in l and "TestCancelMany" not in l and "TestCall" not in l and "TestKvDistLock_Timeout" not in l and "ZZDemo" not in l]
         vio = re.findall(r"^violated: (C\d\d\.[A-Z]\d+)\|", out, re.M)
         ok_demo = un and ch and un.group(1) == "0" and ch.group(1) != "0"
         status = "missed"
